@@ -8,7 +8,8 @@ DRIVER = "c03"
 PROPS_MODULE = "OxyModel.Props.C03"
 AUDIT = "OxyModel/Audit/C03.lean"
 THEOREMS = ["C03.C03_bucket_window", "C03.C03_set_window", "C03.C03_limiter_refines_set",
-            "C03.C03_limiter_window", "C03.C03_5x_suffices", "C03.C03_hypothesis_needed"]
+            "C03.C03_limiter_window", "C03.C03_5x_suffices", "C03.C03_5x_suffices_set",
+            "C03.C03_hypothesis_needed", "C03.C03_subsecond_forgets"]
 RACE = False
 JOBS = 8
 RULE = ("scenario = one rate set (1-3 periods from 1us to 1h, average 1..10^6, burst inside and outside burst<=5*average) "
@@ -94,10 +95,15 @@ def monitor(ops, outs):
         return bad
     cap = int(rc.kv(cfg, "cap") or 0) or 65536
     srcs = sorted(set(e.src for e in evs))
-    if len(srcs) > cap or not rc.refill_within_ttl(rates):
+    if len(srcs) > cap:
         return bad          # outside the guarantee of the statement
+    hyp = rc.refill_within_ttl(rates)
+    keep = 10 * (max(r[0] for r in rates) // S) * S      # an entry is remembered for more than this long after its last use
     for s in srcs:
-        _window_check(s, rates, [e for e in evs if e.src == s], bad)
+        mine = [e for e in evs if e.src == s]
+        # outside RefillWithinTTL the bound is still guaranteed for a source that is never idle long enough to be forgotten
+        if hyp or all(b.t - a.t <= keep for a, b in zip(mine, mine[1:])):
+            _window_check(s, rates, mine, bad)
     return bad
 
 
